@@ -484,7 +484,7 @@ def suite_find(ctx):
 def suite_detect(ctx):
     rnd = ctx.rnd('detect')
     Ls = ctx.langs
-    s = []
+    s = [INJECT]
     pools = {li: Ls.words(li) for li in range(Ls.n)}
     common = {}
     for a in range(Ls.n):
